@@ -146,8 +146,15 @@ func layers() []Layer {
 		{Name: "narrow", Keys: []qkey{{"a.", 1, "u1"}, {"b.", 1, "u1"}, {"A.", 1, "u2"}}, Ttls: []uint32{1, 120}, AllTgts: false, Slack: true, Jan: true, Clone: true, DepthQ: 4, DepthT: 6, InitTtl: 1},
 		// lru: size-limit configurations only; the cache is pre-filled with three answers (one more than max_cache_size=2) by a
 		// fixed prefix, then every continuation over the narrow alphabet (no TTL switch, no clone)
-		{Name: "lru", Keys: []qkey{{"a.", 1, "u1"}, {"b.", 1, "u1"}, {"A.", 1, "u2"}}, AllTgts: false, Jan: true, DepthQ: 4, DepthT: 5, InitTtl: 1, OnlyMax: true,
+		{Name: "lru", Keys: []qkey{{"a.", 1, "u1"}, {"b.", 1, "u1"}, {"A.", 1, "u2"}}, AllTgts: false, Jan: true, Clone: true, DepthQ: 4, DepthT: 5, InitTtl: 1, OnlyMax: true,
 			Prefix: []Op{{Kind: "ask", Name: "a.", Qtype: 1, Scope: "u1"}, {Kind: "ask", Name: "b.", Qtype: 1, Scope: "u1"}, {Kind: "ask", Name: "A.", Qtype: 1, Scope: "u2"}}},
+		// reload: an answer obtained with a long upstream TTL (120 s, longer than the fixed TTL of a.) is in the cache; then every
+		// continuation over two questions, all clock targets of every entry, janitor and reload clone
+		{Name: "reload", Keys: []qkey{{"a.", 1, "u1"}, {"b.", 1, "u1"}}, AllTgts: true, Slack: true, Jan: true, Clone: true, DepthQ: 4, DepthT: 5, InitTtl: 120,
+			Prefix: []Op{{Kind: "ask", Name: "a.", Qtype: 1, Scope: "u1"}}},
+		// types: one name asked with six record types (A, AAAA, SOA, TXT, SVCB, HTTPS: every kind of cache-key construction,
+		// table fast path and numeric slow path) through one upstream, plus HTTPS as-is
+		{Name: "types", Keys: []qkey{{"a.", 1, "u1"}, {"a.", 28, "u1"}, {"a.", 6, "u1"}, {"a.", 16, "u1"}, {"a.", 64, "u1"}, {"a.", 65, "u1"}, {"a.", 65, "asis"}}, AllTgts: true, Jan: true, Clone: true, DepthQ: 3, DepthT: 4, InitTtl: 20},
 		// star: a base question and every single-coordinate variant of it (case, other name, other type, other upstream, as-is), reject
 		{Name: "star", Keys: []qkey{{"a.", 1, "u1"}, {"A.", 1, "u1"}, {"b.", 1, "u1"}, {"a.", 28, "u1"}, {"a.", 1, "u2"}, {"a.", 1, "asis"}}, Rej: []qkey{{"a.", 1, ""}}, Ttls: []uint32{1, 20, 120}, AllTgts: true, Slack: true, Jan: true, Clone: true, DepthQ: 3, DepthT: 4, InitTtl: 20},
 		// full: the whole product {a., A., b.} x {A, AAAA} x {u1, u2, asis} (up to symmetry), reject of every family
@@ -716,7 +723,7 @@ func main() {
 	r.Set("stale_served", classes["stale-served"])
 	r.Set("fresh_hits", classes["hit-fresh"])
 	r.Set("lru_evictions", sumPrefix(classes, "evict-lru"))
-	r.Rule("state = operation history replayed on a fresh real DnsController under the virtual clock; states merged by an exact canonical dump (per entry: deadline-now, original deadline-now, cached deadline nanos-now, packed TTL, packed-at-now, refreshing, last access-now, answers; knowledge table; janitor phase; pending refreshes) plus the reference's state; states = distinct merged states (all non-trivial: each differs in cache content or clock), transitions = histories executed (every one judged in its last operation by the reference cache); three alphabets (full product up to symmetry / star / narrow) to the depths listed under configurations; observation_classes = what the last operation showed (fresh hit, stale served, miss, time eviction, LRU eviction, ...)")
+	r.Rule("state = operation history replayed on a fresh real DnsController under the virtual clock; states merged by an exact canonical dump (per entry: deadline-now, original deadline-now, cached deadline nanos-now, packed TTL, packed-at-now, refreshing, last access-now, answers; knowledge table; janitor phase; pending refreshes) plus the reference's state; states = distinct merged states (all non-trivial: each differs in cache content or clock), transitions = histories executed (every one judged in its last operation by the reference cache); six alphabets (narrow, lru, reload, types, star, full product up to symmetry) to the depths listed under configurations; observation_classes = what the last operation showed (fresh hit, stale served, miss, time eviction, LRU eviction, ...)")
 	r.Assume("record types A/AAAA and the two configured upstreams are interchangeable (symmetry reduction in the 'full' alphabet: AAAA only after A, u2 only after u1)")
 	r.Assume("one upstream exchange takes 5 ms of virtual time; every answer section holds one address that names its (question, generation)")
 	r.Assume("optimistic_cache_ttl=0 is documented as 'never expire'; with max_cache_size=0 the code falls back to 60 s: stale service is required only inside 60 s and never forbidden for that configuration")
